@@ -654,6 +654,8 @@ def main():
     rc_imp = gen_ksa.main(repo, os.path.join(os.path.dirname(outp), "CodeKsa.lean")) or rc_imp
     import gen_ilv
     rc_imp = gen_ilv.main(repo, os.path.join(os.path.dirname(outp), "CodeIlv.lean")) or rc_imp
+    import gen_api
+    rc_imp = gen_api.main(repo, os.path.join(os.path.dirname(outp), "CodeApi.lean")) or rc_imp
     import gen_hash
     rc_imp = gen_hash.main(repo, os.path.join(os.path.dirname(outp), "CodeHash.lean")) or rc_imp
     if "unsupported" in text or "[] Order.le [] false" in text or rc_imp:
